@@ -55,6 +55,7 @@ def run(sid, tier="quick"):
         rc, out = sh(f"./check {pid} --tier {tier}", cwd=VERIF, timeout=7200)
     finally:
         sh("git -C /repo checkout -- .")
+        sh(f"git -C {VERIF} checkout -- lean/PybropsModel/Generated")   # regenerated files back to the clean-tree snapshot
     lines = [l for l in out.splitlines() if l.startswith(("VIOLATION", "KNOWN-FINDING", "HARNESS-ERROR", f"[{pid}]"))]
     res = {"tier": tier, "exit": rc, "caught": rc == 1 and any(l.startswith("VIOLATION") for l in lines),
            "with_failing_input": any(l.startswith("VIOLATION") and "no-failing-input-found" not in l for l in lines),
